@@ -19,3 +19,22 @@ public Q_SLOTS:
     void s4(QHttpEngine::Socket *s) { hit(4, s); }
     void wrong(int) {}
 };
+
+// a second receiver class declaring slots with the same signatures in another order (so that the same signature has
+// another method index): what is looked up for one receiver must not be taken for the other
+class SlotObj2 : public QObject
+{
+    Q_OBJECT
+public:
+    QStringList *obs = nullptr;
+    int idx[5] = {-1, -1, -1, -1, -1};
+    void hit(int k, QHttpEngine::Socket *s) { obs->append(QString("slot:%1:%2").arg(idx[k]).arg(s->bytesAvailable())); }
+public Q_SLOTS:
+    void extra(int) {}
+    void s4(QHttpEngine::Socket *s) { hit(4, s); }
+    void s2(QHttpEngine::Socket *s) { hit(2, s); }
+    void s0(QHttpEngine::Socket *s) { hit(0, s); }
+    void nosuch(QHttpEngine::Socket *s) { hit(0, s); }
+    void s3(QHttpEngine::Socket *s) { hit(3, s); }
+    void s1(QHttpEngine::Socket *s) { hit(1, s); }
+};
